@@ -13,7 +13,8 @@
        The same theorem covers logic ASSERTIONS over Boolean variables that the compiler lowers to one affine row
        (try_lower_affine: a conjunction, disjunction, implication, equivalence, exclusive or or literal over Boolean
        variables, constants and their negations, asserted true or false): C01_affine_assertion_row says that the row
-       holds exactly when the formula has the asserted value.
+       holds exactly when the formula has the asserted value.  Comparisons of such a formula with a constant, which the
+       logic-constraint test turns into an assertion, a tautology or a contradiction, are covered as well.
    For models with other logic (reified logic values inside arithmetic, assertions that need witnesses) the statement
    below is the target; machine-checked for them are the
    *_partial theorems (every lowering arm's row pattern in both directions, the soundness of all facts the rewrites
@@ -58,7 +59,8 @@ Proof. split; [exact m0_affine|exact m0_compiles]. Qed.
    that occurs nowhere (it is dropped by the compiler) has a non-empty range, declared bounds not NaN and integer ranges within i32, sides and objective total arithmetic with abs over declared
    names, and the trace condition compile_trace m = true: the objective and every constraint the main loop takes from
    its queue (source constraints and the rows the arms pushed back) is either an assertion over Boolean variables that
-   try_lower_affine lowers to one row, or is not taken by the logic-constraint test and, once rewritten by flatten / simplify, has only arithmetic, abs, min and max nodes over names
+   try_lower_affine lowers to one row, or a comparison that the logic-constraint test turns into such an assertion, a
+   tautology or a contradiction, or is not taken by that test and, once rewritten by flatten / simplify, has only arithmetic, abs, min and max nodes over names
    declared so far.  abs_modelb decides abs_model and is evaluated on every tied model. *)
 Theorem C01_projection_abs :
   forall (m : model) (L : linmodel), abs_model m -> compile m = inr L ->
@@ -136,8 +138,8 @@ Theorem C01_try_lower_affine_is_that_row :
     end.
 Proof. exact tla_as_row. Qed.
 (* the premises of the end-to-end theorem are met by a model with four logic assertions next to arithmetic with abs *)
-Theorem C01_projection_logic_nonvacuous : abs_model m5.
-Proof. exact (abs_modelb_sound m5 m5_in_fragment). Qed.
+Theorem C01_projection_logic_nonvacuous : abs_model m5 /\ abs_model m6.
+Proof. split; [exact (abs_modelb_sound m5 m5_in_fragment)|exact (abs_modelb_sound m6 m6_in_fragment)]. Qed.
 
 (* ---- proved: affine stage.  On the affine fragment Exp::linearize emits no row, declares no variable and
    returns a context whose value equals the expression's value at every real assignment. *)
